@@ -40,7 +40,7 @@ def gen_case(rng, tier):
     if base in ("float64", "float32"):
         raw = [rng.choice([1.0, 2.0, -3.0, 0.5, 7.0]) for _ in range(n)]
     elif base in ("int64",):
-        raw = [rng.choice([1, 2, -3, 2**53 + 1, 2**62, 7]) for _ in range(n)]
+        raw = [rng.choice([1, 2, -3, 2**53 + 1, 2**62, -2**62, 7]) for _ in range(n)]
     elif base == "int32":
         raw = [rng.choice([1, 2, -3, 2**31 - 1, 2**30]) for _ in range(n)]
     elif base == "int8":
@@ -60,6 +60,19 @@ def gen_case(rng, tier):
         op = rng.choice(["min", "max", "first", "last", "cummax", "shift"])
     if base == "bool" and op in ("rolling_max", "rolling_min", "shift"):
         op = "max"
+    if op in ("sum", "cumsum", "mean") and base in ("int64", "m8"):
+        # the property speaks of sums within the 64-bit range: keep every sub-sum (any group, any prefix) representable
+        # - as int64 for integers, as nanoseconds for durations (the canonical form the results are compared in)
+        unit = vdt.split("[")[1].rstrip("]") if "[" in vdt else ""
+        scale = {"": 1, "ns": 1, "us": 10**3, "s": 10**9}[unit]
+        pos = neg = 0
+        for i, v in enumerate(raw):
+            if v >= 0 and (pos + v) * scale > 2**63 - 1 or v < 0 and (neg + v) * scale < -2**63:
+                raw[i] = v = 1
+            if v >= 0:
+                pos += v
+            else:
+                neg += v
     cuts = sorted(rng.sample(range(0, n + 1), rng.randint(0, min(3, n))))
     b = [0, *cuts, n]
     cuts2 = sorted(rng.sample(range(0, n + 1), rng.randint(0, min(3, n))))
@@ -178,7 +191,14 @@ def run_case(GroupBy, c):
         # the same labels and the same numbers; the ORDER of the labels is C11's subject (a dictionary-typed key
         # carries its own category order)
         got = sorted(got, key=lambda t: str(t[0])); ref = sorted(ref, key=lambda t: str(t[0]))
-    same = len(got) == len(ref) and all((a[0] == b[0] and _close(a[1], b[1], approx)) if isinstance(a, tuple) else _close(a, b, approx) for a, b in zip(got, ref))
+    # a temporal mean is truncated to the resolution of the container that holds the values: polars has no second
+    # resolution (it stores [s] inputs as milliseconds), so there the two truncations may differ by less than one second
+    slack = 10 ** 9 if (op == "mean" and c["vdt"].split("[")[0] in ("m8", "M8") and "[s" in c["vdt"] and c["vcont"] == "polars") else 0
+    def close(a, b):
+        if slack and a is not None and b is not None and abs(int(a) - int(b)) < slack:
+            return True
+        return _close(a, b, approx)
+    same = len(got) == len(ref) and all((a[0] == b[0] and close(a[1], b[1])) if isinstance(a, tuple) else close(a, b) for a, b in zip(got, ref))
     if not same:
         viol.append(dict(sig={**sig, "what": "differs"}, what=f"{op}: keys in {c['kcont']} / values {c['vdt']} in {c['vcont']} differ from the NumPy reference", observed=str(got)[:400], expected=str(ref)[:400]))
     base = c["vdt"].split("[")[0]
